@@ -13,6 +13,7 @@ import (
 
 var sanitizer = strings.NewReplacer( // TODO
 	"\n", ``,
+	"\r", ``,
 	"\t", ``,
 )
 
